@@ -1,8 +1,12 @@
 //! cfdp-verif: runtime monitors for cfdp-rs. One sub-command per property.
 //! usage: cfdp-verif <C01..C20> --tier quick|thorough --seed N --out FILE [--replay CASE]
 mod alloc;
+mod fs;
 mod gen;
 mod pure_codec;
+mod pure_misc;
+mod pure_segments;
+mod udp;
 mod report;
 mod util;
 
@@ -43,12 +47,36 @@ fn main() {
         }
         i += 1;
     }
+    // open the result file first, then confine the process to a scratch jail
+    let mut out_file = out.as_ref().map(|p| std::fs::File::create(p).expect("create result file"));
+    match util::enter_jail(&prop) {
+        Ok(d) => eprintln!("jail: {}", d),
+        Err(e) => {
+            // Engines that execute hostile file names must not run unconfined.
+            println!("INCONCLUSIVE property={} containment unavailable: {}", prop, e);
+            std::process::exit(2);
+        }
+    }
     let t0 = std::time::Instant::now();
     let r = replay.as_deref();
     let (meta, rep) = match prop.as_str() {
         "C05" => pure_codec::run_c05(&tier, seed, r),
         "C06" => pure_codec::run_c06(&tier, seed, r),
         "C15" => pure_codec::run_c15(&tier, seed, r),
+        "C09" => pure_segments::run_c09(&tier, seed, r),
+        "C12" => fs::run_c12(&tier, seed, r),
+        "C14" => pure_misc::run_c14(&tier, seed, r),
+        "C16" => udp::run_c16(&tier, seed, r),
+        "C13a" => {
+            let mut rep = report::Report::new();
+            fs::run_c13a(&mut rep, &tier, seed, r);
+            (pure_misc::meta_c17a_only(), rep)
+        }
+        "C17a" => {
+            let mut rep = report::Report::new();
+            pure_misc::run_c17a(&mut rep, &tier, seed, r);
+            (pure_misc::meta_c17a_only(), rep)
+        }
         other => {
             eprintln!("unknown property {}", other);
             std::process::exit(64);
@@ -57,8 +85,12 @@ fn main() {
     let wall = t0.elapsed().as_secs_f64();
     let j = report::result_json(&meta, &rep, &tier, seed, wall);
     let s = j.to_string();
-    match out {
-        Some(p) => std::fs::write(&p, s).expect("write result"),
+    util::clean_jail();
+    match out_file.as_mut() {
+        Some(f) => {
+            use std::io::Write;
+            f.write_all(s.as_bytes()).expect("write result");
+        }
         None => println!("{}", s),
     }
 }
